@@ -4,7 +4,7 @@ import SymVerif.Model.SolveCheck
 
 ops: `poly <dom> <p>`, `rat <dom> <n1> <d1>`, `rat2 <dom> <n1> <d1> <n2> <d2>` — implementation output
 `<set dump> @ <dump of the complex solution of the numerator N>`;  `lin|lineq <n> <rows> <b>` — output
-`x1,..,xn`;  `trig…` — oracle only (`SKIP`). -/
+`x1,..,xn`;  `trig…`, `trign` — oracle only (`SKIP`). -/
 open SymVerif SymVerif.Solve
 
 def parseRatS (s : String) : Option Rat := (Expr.parseRat s).map fun (n, d) => mkRat n d
@@ -151,7 +151,7 @@ def handle (line : String) : String :=
       match n.toNat? with
       | some n => handleLin n rows b out
       | none => "bad-op"
-    | "trig" :: _ | "trigt" :: _ | "trigR" :: _ => "SKIP:oracle-only"
+    | "trig" :: _ | "trigt" :: _ | "trigR" :: _ | "trign" :: _ => "SKIP:oracle-only"
     | _ => "bad-op"
   | _ => "bad-op"
 
